@@ -14,6 +14,50 @@ pub struct Raw {
     pub detail: String,
 }
 
+/// Collects raw violating cases; per class only the `RAW_CAP` smallest (by a deterministic key)
+/// are kept for minimisation, the rest are counted.
+#[derive(Default)]
+pub struct RawSink {
+    by_class: BTreeMap<String, Vec<(RawKey, Raw)>>,
+    dropped: BTreeMap<String, u64>,
+}
+type RawKey = (usize, usize, String);
+const RAW_CAP: usize = 1500;
+
+fn raw_key(c: &Case) -> RawKey {
+    (c.ops.len(), c.texts.len(), serde_json::to_string(&c.to_json()).unwrap_or_default())
+}
+
+impl RawSink {
+    pub fn push(&mut self, r: Raw) {
+        let case = r.case.compact();
+        let key = raw_key(&case);
+        let v = self.by_class.entry(r.class.clone()).or_default();
+        v.push((key, Raw { case, class: r.class, detail: r.detail }));
+        if v.len() >= 2 * RAW_CAP {
+            v.sort_by(|a, b| a.0.cmp(&b.0));
+            let n = (v.len() - RAW_CAP) as u64;
+            v.truncate(RAW_CAP);
+            let class = v[0].1.class.clone();
+            *self.dropped.entry(class).or_insert(0) += n;
+        }
+    }
+    pub fn into_parts(mut self) -> (Vec<Raw>, BTreeMap<String, u64>) {
+        let mut out = Vec::new();
+        for (class, v) in self.by_class.iter_mut() {
+            v.sort_by(|a, b| a.0.cmp(&b.0));
+            if v.len() > RAW_CAP {
+                *self.dropped.entry(class.clone()).or_insert(0) += (v.len() - RAW_CAP) as u64;
+                v.truncate(RAW_CAP);
+            }
+        }
+        for (_, v) in self.by_class {
+            out.extend(v.into_iter().map(|x| x.1));
+        }
+        (out, self.dropped)
+    }
+}
+
 pub struct Counters {
     pub states: u64,
     pub transitions: u64,
@@ -58,15 +102,20 @@ pub fn seam_orders(n: usize) -> Vec<Vec<usize>> {
 
 pub fn finalize(
     prop: &str,
-    mut raws: Vec<Raw>,
+    sink: RawSink,
     fails: &(dyn Fn(&Case, &str) -> Option<String> + Sync),
     st: &mut Stats,
     threads: usize,
     per_class: usize,
     dl: &Deadline,
 ) {
+    let (mut raws, dropped) = sink.into_parts();
     if raws.is_empty() {
         return;
+    }
+    for (class, n) in &dropped {
+        st.raw_violating_cases += n;
+        *st.outcomes.entry(format!("not-minimised:{class} (beyond the {RAW_CAP} smallest raw cases of this class)")).or_insert(0) += n;
     }
     let _ = (prop, dl);
     raws.sort_by_cached_key(|r| (r.class.clone(), r.case.ops.len(), r.case.texts.len(), serde_json::to_string(&r.case.to_json()).unwrap()));
@@ -119,8 +168,8 @@ pub fn finalize(
                 let c = raw.case.compact();
                 (c.clone(), Violation { signature: format!("nondeterministic:{class}"), witness: c.to_json(), detail: format!("failed once, passed on re-execution: {}", raw.detail) })
             } else {
-                let mut budget = 300usize;
-                let min = minimise(&raw.case, &|c: &Case| fails(c, class).is_some(), &mut budget);
+                let mut budget = 200usize;
+                let min = minimise(&raw.case.compact(), &|c: &Case| fails(c, class).is_some(), &mut budget);
                 let d = fails(&min, class).unwrap_or_else(|| raw.detail.clone());
                 (min.clone(), Violation { signature: class.clone(), witness: min.to_json(), detail: format!("{d}  (history: {})", min.describe()) })
             };
@@ -155,7 +204,7 @@ pub fn finalize(
     }
 }
 
-fn record(v: &Verdict, case: &Case, st: &mut Stats, raws: &Mutex<Vec<Raw>>, unstable: &std::sync::atomic::AtomicU64) {
+fn record(v: &Verdict, case: &Case, st: &mut Stats, raws: &Mutex<RawSink>, unstable: &std::sync::atomic::AtomicU64) {
     if v.unstable {
         st.outcome("excluded:fresh-analysis-unstable");
         unstable.fetch_add(1, std::sync::atomic::Ordering::Relaxed);
@@ -233,7 +282,7 @@ pub fn run_c08(args: &Args) -> ! {
     let base = u::base_case(&u::FILES);
     // consistent starting states S0
     let mut prefixes: Vec<(Vec<Op>, bool)> = Vec::new(); // (ops, deep)
-    let n_deep = if thorough { 12 } else { 3 };
+    let n_deep = if thorough { 4 } else { 3 };
     for (wi, w) in wss.iter().enumerate() {
         let deep = wi < n_deep;
         prefixes.push((vec![u::load(w)], deep));
@@ -257,10 +306,10 @@ pub fn run_c08(args: &Args) -> ! {
             }
         }
     }
-    let depth_all = if thorough { 2 } else { 1 };
-    let depth_deep = if thorough { 4 } else { 2 };
+    let depth_all = 1;
+    let depth_deep = if thorough { 3 } else { 2 };
     let cache = FreshCache::default();
-    let raws = Mutex::new(Vec::new());
+    let raws = Mutex::new(RawSink::default());
     let unstable = std::sync::atomic::AtomicU64::new(0);
     let mut all = Stats::default();
     let mut cnt = Counters::default();
@@ -407,7 +456,7 @@ pub fn run_c09(args: &Args) -> ! {
     }
     let depth = if thorough { 3 } else { 2 };
     let cache = FreshCache::default();
-    let raws = Mutex::new(Vec::new());
+    let raws = Mutex::new(RawSink::default());
     let unstable = std::sync::atomic::AtomicU64::new(0);
     let mut all = Stats::default();
     let mut cnt = Counters::default();
@@ -527,7 +576,7 @@ pub fn run_c10(args: &Args) -> ! {
         }
     }
     let cache = FreshCache::default();
-    let raws = Mutex::new(Vec::new());
+    let raws = Mutex::new(RawSink::default());
     let unstable = std::sync::atomic::AtomicU64::new(0);
     let keys: Mutex<BTreeSet<String>> = Mutex::new(BTreeSet::new());
     let (mut all, done) = par_range(cases.len() as u64, args.threads, &dl, |i, st| {
@@ -633,7 +682,7 @@ pub fn run_c11(args: &Args) -> ! {
             cases.push(c);
         }
     }
-    let raws = Mutex::new(Vec::new());
+    let raws = Mutex::new(RawSink::default());
     let unstable = std::sync::atomic::AtomicU64::new(0);
     let keys: Mutex<BTreeSet<String>> = Mutex::new(BTreeSet::new());
     let (mut all, done) = par_range(cases.len() as u64, args.threads, &dl, |i, st| {
